@@ -671,15 +671,16 @@ def asof_config(rng, layouts, case, llay=None, rlay=None):
 
 
 def empties_layouts(n):
-    """Layouts of n >= 1 rows with empty partitions in every position: first, middle, two in a row, last, all around."""
-    out = []
+    """Layouts of n >= 1 rows with empty partitions in every position: first, middle, two in a row (in the middle, at the
+    end, at the start), last, all around."""
+    out = [[n, 0, 0], [0, 0, n]]
     for a in range(1, n):
         b = n - a
-        out += [[0, a, b], [a, 0, b], [a, 0, 0, b], [a, b, 0], [0, a, 0, b, 0], [0, 0, a, b]]
-    return out or [[0, n], [n, 0], [0, n, 0], [0, 0, n]]
+        out += [[0, a, b], [a, 0, b], [a, 0, 0, b], [a, b, 0], [a, b, 0, 0], [0, a, 0, b, 0], [0, 0, a, b]]
+    return out + ([] if n > 1 else [[0, n], [n, 0], [0, n, 0]])
 
 
-def asof_stratum(rng, layouts, cases, per_combo):
+def asof_stratum(rng, layouts, cases, per_combo, only_middle=False):
     """The merge_asof stratum that is never sampled out: for every (mode, direction, by, allow_exact_matches, tolerance) `per_combo`
     cases whose RIGHT operand (and, every other time, the left one too) is laid out with empty partitions, the positions
     of the empty partitions rotating through first / middle / consecutive / last."""
@@ -693,7 +694,10 @@ def asof_stratum(rng, layouts, cases, per_combo):
         pool = bycombo[combo]
         for c in (pool if len(pool) <= per_combo else rng.sample(pool, per_combo)):
             case = c["c"]
-            rl = empties_layouts(len(case["R"]))
+            if only_middle and case["mode"] != "ii":
+                continue
+            # only_middle: runs of empty partitions that FOLLOW rows (the ones a prefix scan of tails has to bridge)
+            rl = [x for x in empties_layouts(len(case["R"])) if not only_middle or (x[0] and [0, 0] in [x[i:i + 2] for i in range(len(x))])]
             ll = empties_layouts(len(case["L"]))
             cfg = asof_config(rng, layouts, case, llay=ll[turn % len(ll)] if turn % 2 else None, rlay=rl[turn % len(rl)])
             turn += 1
@@ -945,12 +949,13 @@ def selftest(ctx):
     consts = dict(bounds(ctx), MaxL=3, MaxR=3, Full=2, Mod=24, HeavyMod=400, CMod=11, AMod=200, PMod=5, PreMod=29)
     cases = enumerate_cases(ctx, consts, ["merge", "premerge", "concat", "asof", "layouts"], "selftest:cases")
     layouts = {c["c"]["n"]: c["e"] for c in cases if c["c"]["fam"] == "layouts"}
-    quota = {"merge:cc": 70, "merge:kk": 30, "merge:pre": 140, "merge:ii": 15, "merge:ii:sorted": 25, "merge:ic": 15, "merge:ci": 15,
-             "concat": 25, "asof": 20, "asof:empties": 1}
+    quota = {"merge:cc": 60, "merge:kk": 25, "merge:pre": 110, "merge:ii": 10, "merge:ii:sorted": 20, "merge:ic": 15, "merge:ci": 10,
+             "concat": 20, "asof": 15}
     items = plan_items(ctx, cases, quota, 1)
+    items += asof_stratum(rng, layouts, cases, 2, only_middle=True)
     # directed configurations: concat operands whose single-partition divisions touch; asof with the right operand cut
     # into one-row partitions with known divisions (matches then lie in the previous partition)
-    nb = 0
+    nb = nc = 0
     for c in cases:
         case, exp = c["c"], c["e"]
         if case["fam"] == "merge" and case["mode"] == "cc" and len(case["L"]) == 3 and len(case["R"]) == 3 and nb < 30 and rng.random() < 0.1:
@@ -959,12 +964,13 @@ def selftest(ctx):
             cfg = dict(merge_config(rng, layouts, case, how, exp["mask"]), broadcast=True, npart=None, api="merge", ldivs=None, rdivs=None,
                        llay=[2, 1] if how == "left" else [1, 1, 1], rlay=[1, 1, 1] if how == "left" else [2, 1])
             items.append(("m%d" % len(items), "merge", case, how, cfg, exp))
-        if case["fam"] == "concat" and len(items) < 290:
+        if case["fam"] == "concat" and nc < 40:
             fr = case["frames"]
             if all(f["rows"] and all(a["idx"] <= b["idx"] for a, b in zip(f["rows"], f["rows"][1:])) for f in fr) and \
                all(fr[i]["rows"][-1]["idx"] == fr[i + 1]["rows"][0]["idx"] for i in range(len(fr) - 1)) and rng.random() < 0.5:
                 cfg = {"lays": [[len(f["rows"])] for f in fr], "divs": [[SCALE * f["rows"][0]["idx"], SCALE * f["rows"][-1]["idx"]] for f in fr],
                        "interleave": False, "whole": False}
+                nc += 1
                 items.append(("c%d" % len(items), "concat", case, "", cfg, exp))
         if case["fam"] == "asof" and case["mode"] == "ii" and len(case["R"]) >= 2 and rng.random() < 0.12:
             cfg = {"llay": [len(case["L"])], "ldivs": make_divs(_labels(case["L"]), [len(case["L"])], rng),
@@ -977,8 +983,8 @@ def selftest(ctx):
 
     def outcome(fams):
         """signatures of the violations of the (possibly mutated) code on the items of the given families, known findings excluded."""
-        sub = [it for it in items if it[1] in fams or ("premerge" in fams and it[1] == "merge" and has_pre(it[2]))
-               or ("asof-empties" in fams and it[0].startswith("s"))]
+        fam_of = lambda it: ("premerge" if has_pre(it[2]) else "merge") if it[1] == "merge" else "asof-empties" if it[0].startswith("s") else it[1]   # noqa: E731
+        sub = [it for it in items if fam_of(it) in fams]
         results = pmap(_work, sub, chunk=8)
         sigs = {}
         for it, res in zip(sub, results):
@@ -991,7 +997,7 @@ def selftest(ctx):
         return sigs, len(sub)
 
     ok = True
-    base, n = outcome({"merge", "concat", "asof"})
+    base, n = outcome({"merge", "premerge", "concat", "asof", "asof-empties"})
     print("selftest C39 baseline (unmutated code, %d cases): violations outside known findings %s -> %s" % (n, base, "ok" if not base else "UNEXPECTED"))
     ok &= not base
     semi = mutate(multi.merge_chunk, "rhs = rhs.drop_duplicates()", "pass")
@@ -1008,7 +1014,7 @@ def selftest(ctx):
         ("Concat._monotonic_divisions: `<` -> `<=` (touching divisions are chained)", {"concat"},
          [(cc.Concat, "_monotonic_divisions", mutate(vars(cc.Concat)["_monotonic_divisions"], "dfs[i].divisions[-1] < dfs[i + 1].divisions[0]",
                                                      "dfs[i].divisions[-1] <= dfs[i + 1].divisions[0]"))]),
-        ("merge_asof_padded: the tail of the previous right partitions is no longer prepended", {"asof"},
+        ("merge_asof_padded: the tail of the previous right partitions is no longer prepended", {"asof", "asof-empties"},
          [(multi, "merge_asof_padded", padded), (ma, "merge_asof_padded", padded)]),
         # partitioning knowledge wrongly lets an operation skip its own shuffle
         ("Merge._on_condition_already_partitioned: an operand hash-partitioned on columns that merely OVERLAP the join keys counts as partitioned", {"premerge"},
